@@ -252,7 +252,7 @@ def _episode(g, gs0, sup, ep, eo: EpisodeOut, clock, const, plan):
         if ep["api"] == "gym":
             gs, ss = _call(eo, "reset", g.reset, gs_init, budget=budget, slow=sl(0))
             eo.obs.append(obs_digest(ss))
-            ov = ep.get("override") or [False] * ep["nsteps"]
+            ov = (list(ep.get("override") or []) + [False] * ep["nsteps"])[: ep["nsteps"]]
             for i in range(ep["nsteps"]):
                 if ov[i]:
                     new_ss, out = probes.user_override(sup, ss)
